@@ -40,6 +40,8 @@ OBLIGATIONS = [
     "KafVerif.C45.fields_direct",
     "KafVerif.C45.segments_are_elements",
     "KafVerif.C45.old_violates_routes",
+    "KafVerif.C45.deep_chain_all_emitted",             # every nesting depth n: n elements -> n segment entries (no stack bound)
+    "KafVerif.C45.depth_bound_violates",               # witness: an element-stack bound (decoder.Skip on a full stack) drops elements
     "KafVerif.C45.explode_depends_only_on_own_call",   # every history: i-th result = explode of the i-th (config, document)
     "KafVerif.C45.calls_eq_spec",                      # ... = the prescribed record for that call's own configuration
     "KafVerif.C45.value_keyed_memo_transparent",       # a last-config memo with its own copy of the key is invisible
@@ -250,6 +252,49 @@ def gen_doc(rng):
     if rng.chance(1, 4):
         toks.append("T" + hx("\n"))
     return cfg, root, "doc %s %s %s %s %s" % (cfg_str(cfg[0]), cfg_str(cfg[1]), cfg_str(cfg[2]), cfg_str(cfg[3]), ";".join(toks))
+
+
+DEEP_BOUNDARY = [1, 2, 15, 16, 17, 31, 32, 33, 34, 48, 63, 64, 65, 66, 100, 127, 128, 129, 200]
+
+
+def gen_deep_tree(rng, depth, wide):
+    """a chain of `depth` nested elements (the root is level 1); with `wide` every level also carries leaf / small-subtree
+    siblings before and after the nested child, texts, and routable names at every depth (so routed lists and Fields have
+    entries whose element sits deeper than any plausible stack bound)."""
+    def leaf():
+        return Node(rng.choice(SEQ_FIELDS + NAMES[:6]), [], [("T", rng.choice(TEXTS))] if rng.chance(3, 4) else [], False)
+
+    def name():
+        return rng.choice(ROUTE_NAMES[:6]) if rng.chance(1, 2) else rng.choice(["A", "B", "x", "IDOC", "POSEX", "E1EDP01"])
+
+    node = Node(name(), [("id", "d")] if rng.chance(1, 3) else [], [("T", rng.choice(TEXTS))] + ([leaf()] if wide else []))
+    for lvl in range(depth - 1, 0, -1):
+        kids = []
+        if wide:
+            for _ in range(rng.choice([0, 0, 1, 2])):
+                kids.append(leaf() if rng.chance(3, 4) else gen_tree(rng, 2, [4]))
+            if rng.chance(1, 3):
+                kids.append(("T", rng.choice(TEXTS)))
+        kids.append(node)
+        if wide:
+            if rng.chance(1, 3):
+                kids.append(("T", rng.choice(TEXTS)))
+            for _ in range(rng.choice([0, 0, 1])):
+                kids.append(leaf())
+        node = Node(name(), [("id", str(lvl))] if rng.chance(1, 6) else [], kids)
+    return node
+
+
+def gen_deep_doc(rng, depth, wide):
+    cfg = gen_cfg(rng)
+    if rng.chance(3, 4):
+        cfg[rng.below(4)].append(rng.choice(["A", "B", "E1EDP01"]))
+    root = gen_deep_tree(rng, depth, wide)
+    return cfg, root, "doc %s %s %s %s %s" % (cfg_str(cfg[0]), cfg_str(cfg[1]), cfg_str(cfg[2]), cfg_str(cfg[3]), ";".join(tokens(root, [])))
+
+
+def tree_depth(node):
+    return 1 + max([tree_depth(c) for c in node.children if isinstance(c, Node)] or [0])
 
 
 # ---------------------------------------------------------------- call sequences (one process, reused configuration buffers)
@@ -542,7 +587,7 @@ def run(ck):
         return
     binary = bins["h"]
     q = ck.quick()
-    ck.cov["rule"] = ("a case = one generated document (tree of <= 40 elements, depth <= 6, mixed content, attributes, CDATA, comments, self-closing "
+    ck.cov["rule"] = ("a case = one generated document (tree of <= 40 elements, depth <= 6, or a deep chain / wide+deep mix nested 1..200 levels incl. 31/32/33/64/65/128/129; mixed content, attributes, CDATA, comments, self-closing "
                       "elements, prolog) + routing configuration (0-3 names per route, overlapping/blank/padded entries), exploded either by a single "
                       "call with a fresh configuration or as one call of a sequence in the same process whose configuration buffers are reused / "
                       "rewritten in place; non-trivial: >= 3 elements and at least one routed list non-empty; distinct = distinct op lines")
@@ -550,6 +595,13 @@ def run(ck):
         ck.broke("package-level variables regenerated from pkg/idoc (KafVerif.C45.no_package_level_state)",
                  "ExplodeXML must depend on the configuration and document of the call only; state that survives a call:\n" + "\n".join(ck.var_failures))
     docs = fixed_docs() + [gen_doc(ck.rng.fork()) for _ in range(700 if q else 8000)]
+    # deep nesting: the theorems are for EVERY tree — chains of every boundary depth (plain and wide+deep mixes) and random depths 1..200
+    drng = ck.rng.fork()
+    for d in DEEP_BOUNDARY:
+        docs.append(gen_deep_doc(drng.fork(), d, False))
+        docs.append(gen_deep_doc(drng.fork(), d, True))
+    for _ in range(20 if q else 300):
+        docs.append(gen_deep_doc(drng.fork(), drng.range(1, 200), drng.chance(2, 3)))
     seq = gen_sequence(ck.rng.fork(), 900 if q else 12000)
     cases = [("doc", c, r, o) for c, r, o in docs] + seq
     ops = [c[3] for c in cases]
@@ -586,6 +638,12 @@ def run(ck):
             part.split("=", 1)[1] != "" for part in io.split() if part.split("=", 1)[0] in ("items", "partners", "statuses", "dates"))
         ck.case(op, nontrivial=(nseg >= 3 and routed_nonempty), sample={"op": op[:300], "impl": io[:300]} if i % 150 == 0 else None)
         ck.count("documents"); ck.count("elements", nseg)
+        if kind == "doc":
+            dp = tree_depth(root)
+            ck.count("docs_nested_deeper_than_32", 1 if dp > 32 else 0)
+            ck.count("docs_nested_deeper_than_64", 1 if dp > 64 else 0)
+            ck.count("docs_nested_deeper_than_128", 1 if dp > 128 else 0)
+            ck.cov["max_nesting_depth"] = max(ck.cov.get("max_nesting_depth", 0), dp)
         ck.count("docs_with_overlapping_routes", 1 if len(set().union(*[cfg_set(l) for l in cfg])) < sum(len(cfg_set(l)) for l in cfg) else 0)
         ck.count("docs_with_html_void_names", 1 if has_void_name(root) else 0)
         if kind != "doc":
@@ -614,6 +672,8 @@ def run(ck):
         ck.cov["evaluations"] += 1
         if io == "panic":
             ck.violation("explode-panics-on-malformed-input", "ExplodeXML panicked on %s" % op, {"ops": [op], "actual": "panic"})
+    if ck.cov["distribution"].get("docs_nested_deeper_than_128", 0) == 0:
+        ck.broke("generator", "no document nested deeper than 128 levels was generated")
     if first_corr and not ck.violations:
         op, io, mo = first_corr
         ck.cov["disagreements_checked"] += 1
